@@ -253,7 +253,49 @@ def gen_plan(prop, seed, tier, idx):
     return _finish(prop, seed, batch, req, argv, invalid, rng)
 
 
+LONG_OPTS = {"--testnet": 0, "--paranoia": 0, "--account": 1, "--interval": 2, "--file": 1, "--password": 1,
+             "--mnemonic-len": 1}
+
+
+def respell(argv, rng):
+    """Semantics-preserving re-spellings argparse accepts: unambiguous abbreviations of long options,
+    --opt=value, -fVALUE, and an earlier occurrence of a single-valued option that the later one overrides."""
+    out = []
+    i = 0
+    done = []
+    while i < len(argv):
+        a = argv[i]
+        n = LONG_OPTS.get(a)
+        if a == "-f" and i + 1 < len(argv) and rng.random() < 0.2 and argv[i + 1] and not argv[i + 1].startswith("-"):
+            out.append("-f" + argv[i + 1])
+            done.append("attached-short")
+            i += 2
+            continue
+        if n is None:
+            out.append(a)
+            i += 1
+            continue
+        vals = argv[i + 1:i + 1 + n]
+        name = a
+        if rng.random() < 0.25:
+            name = a[:rng.randint(3, len(a) - 1)]          # "--t", "--par", "--acc", "--mnemonic-l", ...
+            done.append("abbrev")
+        if n == 1 and len(vals) == 1 and rng.random() < 0.25:
+            if a in ("--account",) and rng.random() < 0.3:
+                out += [name, str(rng.choice([0, 3, 77]))]   # overridden by the later occurrence
+                done.append("repeated")
+            out.append(name + "=" + vals[0])
+            done.append("equals")
+        else:
+            out += [name] + vals
+        i += 1 + n
+    return out, done
+
+
 def _finish(prop, seed, batch, req, argv, invalid, rng):
+    if rng.random() < 0.5:
+        argv, spell = respell(argv, rng)
+        req = dict(req, respelled=spell)
     faults = []
     if batch == "race":
         faults.append({"kind": "race", "gap": rng.randrange(0, 9), "action": rng.choice(RACE_ACTIONS)})
